@@ -55,6 +55,17 @@ class UserAddEdge(ActionGroup):
                 f"target (time {target_time})"
             )
 
+        # A source with two other children cannot take a third one, and forcing does
+        # not help. Check this before anything is removed.
+        other_children = [
+            succ for succ in self.tracks.graph.successors(source) if succ != target
+        ]
+        if len(other_children) > 1:
+            raise InvalidActionError(
+                "Expected degree of 0 or 1 before adding edge, got "
+                f"{self.tracks.graph.out_degree(source)}"
+            )
+
         # Check if making a merge. If yes and force, remove the other edge and update
         # track ids.
         in_degree_target = self.tracks.graph.in_degree(target)
